@@ -135,7 +135,8 @@ func (r *runner) runRange(from, to int, witness string, repeats int) {
 		if ee, ok := werr.(*exec.ExitError); ok {
 			code = ee.ExitCode()
 		}
-		if code == 2 {
+		if code == 97 {
+			// (97, not 2: the Go runtime exits with 2 on an uncaught panic or fatal error)
 			// the child could not even start its work (run directory removed,
 			// unknown witness): nothing was decided
 			r.addIncon(fmt.Sprintf("child for cases [%d,%d) could not run: %s", from, to, strings.TrimSpace(string(tailBytes(logb, 300)))))
